@@ -76,13 +76,20 @@ def module_facts(m):
 
 
 def exec_history(case):
+    with M.repeatable_kernels(case["model"]["fam"] == "conv"):
+        return _exec_history(case)
+
+
+def _exec_history(case):
     out = Outcome()
     g = torch.Generator().manual_seed(case["seed"])
     dtype = gen.DT[case["dtype"]]
     wq, aq = O.QTALL[case["wq"]], ACT[case["aq"]]
     model, shape = M.build_runnable(case["model"], g)
     model = model.to(dtype)
-    probe = M.batch(shape, dtype, g)
+    # a probe batch large enough for two kernels computing the same layer to round differently somewhere
+    # (two fp32-accumulating kernels disagree after rounding to bf16 on ~3e-4 of the outputs: thousands of outputs are needed)
+    probe = M.batch(shape, dtype, g, bsz={"conv": 3, "lin": 256}.get(case["model"]["fam"], 40))
     with torch.no_grad():
         fy = cut(model, probe)
     fam = case["model"]["fam"]
@@ -213,4 +220,28 @@ def run(ctx):
     drive(ctx, cases(), exec_history, max(1, int(ctx.params["n"] * ctx.params.get("scale", 1))))
 
 
-SUBCHECKS = {"cycles": {"run": run, "execute": exec_history}}
+def run_matrix(ctx):
+    """complete cross product dtype x weight qtype x activations x frozen x serializer x target on single Linear layers whose sizes
+    reach every CPU kernel route (in_features multiple of 16 or not, 40-token probe): one cycle each"""
+    from vlib.core import enumerate_cases
+
+    cs = []
+    for dt in ("fp32", "fp16", "bf16"):
+        for wq in sorted(O.QTALL):
+            for aq in ("none", "qint8", "qfloat8_e4m3fn"):
+                for frozen in (True, False):
+                    for ser in SERIALIZERS:
+                        for tgt in ("same", "default", "requantize"):
+                            for (i, o) in ((256, 64), (33, 5), (160, 9)):
+                                cs.append({"model": {"fam": "lin", "i": i, "h": 8, "o": o, "bias": True, "act": "none", "depth": 1}, "wq": wq, "aq": aq, "dtype": dt,
+                                           "seed": ctx.seed * 100 + i + o, "calibrate": "no-streamline" if aq != "none" else "no", "frozen": frozen, "cycles": [[ser, tgt]]})
+                            # a deeper, wider model: a one-ulp disagreement between two kernels in an early layer reaches many outputs
+                            if wq in ("qfloat8_e5m2", "qint2") or aq == "qfloat8_e4m3fn" or (not frozen and tgt != "same"):
+                                continue
+                            cs.append({"model": {"fam": "mlp", "i": 256, "h": 512, "o": 128, "bias": True, "act": "gelu", "depth": 2}, "wq": wq, "aq": aq, "dtype": dt,
+                                       "seed": ctx.seed * 100 + 7, "calibrate": "no-streamline" if aq != "none" else "no", "frozen": frozen, "cycles": [[ser, tgt]]})
+    enumerate_cases(ctx, cs[ctx.shard :: ctx.nshards], exec_history,
+                    exhaustive_name="dtype x 6 weight qtypes x 3 activation settings x frozen x 3 serializers x 3 targets x 3 Linear sizes, one save/load cycle")
+
+
+SUBCHECKS = {"cycles": {"run": run, "execute": exec_history}, "matrix": {"run": run_matrix, "execute": exec_history}}
